@@ -59,3 +59,7 @@ def run(tier, seed, verdict):
          "block-level compression through re-fetched block handles is not judged"],
         ("Create:ok", "WriteAll:ok", "Assign:ok", "Append:ok", "Resize:ok", "AppendBad:refused:ValueError",
          "Assign:refused:IndexError", "CreateMismatch:refused:ShapeMismatch"))
+
+
+def replay(path):
+    return ar.replay_file(path, "C01")
